@@ -103,7 +103,8 @@ void do_call(const JV& c) {
   else if (ep == "rdp") { static const double eps[] = {0, 0.5, 2, 1e9}; sink = RamerDouglasPeucker(s0, eps[a[0].i()]).size() + RamerDouglasPeucker(S, eps[a[0].i()]).size(); }
   else if (ep == "strip") { Path64 p = s0; StripDuplicates(p, a[0].i() % 2 != 0); sink = p.size() + StripNearEqual(s0, 2.0, a[0].i() % 2 != 0).size(); }
   else if (ep == "pip") { sink = (size_t)PointInPolygon(Point64(t + 3, t + 3), s0) + (size_t)PointInPolygon(s0.empty() ? Point64(0, 0) : s0[0], s0); }
-  else if (ep == "misc") { dsink = Area(S) + Length(s0, true) + [&]{ Rect64 bb = GetBounds(S); return (double)bb.left + (double)bb.right + (double)bb.top + (double)bb.bottom; }();   // (not Width(): the bounds of a point-less path set are the inverted extreme rectangle by design) sink = Ellipse(Rect64(t, t, t + 20 * (a[0].i() + 0), t + 10)).size() + TranslatePath(s0, (int64_t)5, (int64_t)-5).size() + (size_t)IsPositive(s0); }
+  // (misc: not Rect::Width() - the bounds of a point-less path set are the inverted extreme rectangle by design)
+  else if (ep == "misc") { dsink = Area(S) + Length(s0, true) + [&]{ Rect64 bb = GetBounds(S); return (double)bb.left + (double)bb.right + (double)bb.top + (double)bb.bottom; }(); sink = Ellipse(Rect64(t, t, t + 20 * (a[0].i() + 0), t + 10)).size() + TranslatePath(s0, (int64_t)5, (int64_t)-5).size() + (size_t)IsPositive(s0); }
 }
 
 // runs one call in a child; fault = 0 none, > 0 fail the k-th allocation, < 0 count allocations (writes a Count event)
